@@ -13,6 +13,8 @@ TABLE = [
     ("C03", r"rk4_R", r"span\.|support", ["rk4_overshoot"]),
     ("C03", r".*_R", r"span\.|hinit|support", ["span_hinit_probe", "rk4_overshoot"]),
     ("C11", r".*_R", r"step\.|hinit", ["step_bounds"]),
+    ("C07", r".*", r".*", ["dense_midstep_order"]),
+    ("C06", r"rk4|coef_dense", r"dense", ["dense_midstep_order"]),
     ("C06", r"radau", r"dense\.|interp", ["radau_interpolant_interval"]),
     ("C19", r"radau", r"interpolant_interval|dense\.", ["radau_interpolant_interval"]),
     ("C06", r".*", r"dense\.|interp\.", ["event_interpolant_right_end"]),
